@@ -26,6 +26,9 @@ CAT_NAMES = ["gov", "house"]
 ODD_REG_NAMES = ["A 1", "B-2", "c_3", "d.4", "e5", "f 6"]
 ODD_SEC_NAMES = ["10 Agri", "2 build", "Manu fact", "serv.", "trade-x", "util", "water 1", "xport"]
 ODD_CAT_NAMES = ["Gov exp", "house holds"]
+# names that differ only by capitalisation (two sectors such as "Other" (utilities) / "other" (services) exist in aggregated tables)
+CASE_SEC_NAMES = ["Build", "Serv", "build", "serv", "trade", "util", "water", "xport"]
+assert CASE_SEC_NAMES == sorted(CASE_SEC_NAMES)
 assert ODD_REG_NAMES == sorted(ODD_REG_NAMES) and ODD_SEC_NAMES == sorted(ODD_SEC_NAMES) and ODD_CAT_NAMES == sorted(ODD_CAT_NAMES)
 
 
@@ -88,7 +91,8 @@ def gen_table(rng: random.Random, m=None, n=None, k=None, kind=None, scale=None,
                 Y[j][c] = Y[j][c] * 1.7 + scale
     tb = {"m": m, "n": n, "k": k, "kind": kind, "scale": scale, "Z": Z, "Y": Y}
     lab_rng = random.Random(int(Z[0][0] * 1e6) ^ 0x1ABE1)       # (drawn apart: the table itself is what it was)
-    tb["labels"] = labels or ("odd" if lab_rng.random() < 0.3 else "plain")
+    lr_ = lab_rng.random()
+    tb["labels"] = labels or ("odd" if lr_ < 0.3 else ("case" if lr_ < 0.4 and n >= 3 else "plain"))
     if scale >= 100 and rng.random() < 0.12:
         # whole numbers, integer dtype
         tb["Z"] = [[float(round(v)) for v in row] for row in Z]
@@ -100,6 +104,8 @@ def gen_table(rng: random.Random, m=None, n=None, k=None, kind=None, scale=None,
 def labels(tb: dict):
     if tb.get("labels") == "odd":
         return ODD_REG_NAMES[: tb["m"]], ODD_SEC_NAMES[: tb["n"]], ODD_CAT_NAMES[: tb["k"]]
+    if tb.get("labels") == "case":
+        return REG_NAMES[: tb["m"]], CASE_SEC_NAMES[: tb["n"]], CAT_NAMES[: tb["k"]]
     return REG_NAMES[: tb["m"]], SEC_NAMES[: tb["n"]], CAT_NAMES[: tb["k"]]
 
 
@@ -239,8 +245,11 @@ def build_model(tb: dict, cfg: dict, io=None, capital_perm=None, dict_order=None
         if dct is None or dict_order is None:
             return copy.deepcopy(dct)
         keys = list(dct.keys())
-        rnd = random.Random(dict_order)
-        rnd.shuffle(keys)
+        if dict_order == "reversed":
+            keys.reverse()
+        else:
+            rnd = random.Random(dict_order)
+            rnd.shuffle(keys)
         return {kk: dct[kk] for kk in keys}
 
     if cfg.get("inf_sect") is not None:
